@@ -176,7 +176,7 @@ Definition dec_fmt_cells (ns : nat) (bs : list N) : rres (list str) :=
     if code =? 0 then RErr                            (* TypeMismatch *)
     else if (len =? 0) && negb (code =? 7) then RErr
     else if code =? 7 then
-      match dec_cells ns (Z.to_nat len) r with Some xs => ROk xs | None => RErr end
+      match dec_cells ns (znat (S (length r)) len) r with Some xs => ROk xs | None => RErr end
     else RErr                                         (* TypeMismatch *)
   end.
 
